@@ -477,6 +477,7 @@ fn churn(ctx: &mut Ctx) {
 fn rejoin_same_identity(ctx: &mut Ctx) {
     let kind = [Kind::Router, Kind::Dealer, Kind::Rep, Kind::Pull, Kind::Xpub, Kind::Sub][(ctx.idx % 6) as usize];
     let timing = (ctx.idx / 6) % 4; // when the second connection is opened
+    let how = (ctx.idx / 24) % 3; // how the first connection ends: orderly close, cut inside a message, reset
     world::swarm(ctx, SwarmOpts::default());
     let out: Rc<RefCell<(bool, Vec<(&'static str, String)>, Vec<Arc<rt::net::Conn>>)>> = Rc::new(RefCell::new((false, vec![], vec![])));
     let o2 = out.clone();
@@ -504,7 +505,20 @@ fn rejoin_same_identity(ctx: &mut Ctx) {
             rt::task::idle().await;
             p2 = Some(p);
         }
-        p1.close();
+        match how {
+            0 => p1.close(),
+            1 => {
+                // the connection ends inside a message: the socket sees a read error
+                let enc = rc::encode_msg(&msg(1));
+                let _ = p1.send(&enc[..enc.len() / 2]).await;
+                rt::count("fault_cut_mid_message");
+                p1.close();
+            }
+            _ => {
+                p1.reset();
+                drop(p1);
+            }
+        }
         // timing 1: right after the close, before the socket has been polled
         if timing == 1 {
             let mut p = RawPeer::connect(&ep).expect("connect");
@@ -559,7 +573,7 @@ fn rejoin_same_identity(ctx: &mut Ctx) {
             }
         }
         if !got {
-            o2.borrow_mut().1.push(("rejoined_peer_not_heard", format!("{} (rejoin timing {timing}): a message on the new connection of the rejoined peer was not delivered", kind.name())));
+            o2.borrow_mut().1.push(("rejoined_peer_not_heard", format!("{} (first connection ended by {}, rejoin timing {timing}): a message on the new connection of the rejoined peer was not delivered", kind.name(), ["close", "cut inside a message", "reset"][how as usize])));
         }
         // outbound to the new connection
         if kind.has_send() {
@@ -613,9 +627,9 @@ fn rejoin_same_identity(ctx: &mut Ctx) {
     } else if end == rt::RunEnd::Quiescent && ctx.sim.rt.panics.borrow().is_empty() && o.1.is_empty() {
         ctx.violation("hang", format!("{} rejoin: the application never finished", kind.name()));
     }
-    ctx.out.extra_shape = ctx.idx % 24;
+    ctx.out.extra_shape = ctx.idx % 72;
     if ctx.want_sample {
-        ctx.out.sample = Some(format!("{}: peer 'same-id' sends, closes and rejoins under the same identity (timing {timing})", kind.name()));
+        ctx.out.sample = Some(format!("{}: peer 'same-id' sends, leaves and rejoins under the same identity (timing {timing})", kind.name()));
     }
 }
 
@@ -629,7 +643,7 @@ pub fn def() -> PropDef {
         strata: vec![
             Stratum { name: "cut_world", quick: space + 60_000, thorough: space * 40, exhaustive: (false, false), run: cut_world, what: "victim cut at every offset x fault kind x socket type, bystanders alive" },
             Stratum { name: "cut_world_connect", quick: space / 2 + 20_000, thorough: space * 10, exhaustive: (false, false), run: cut_world_connect, what: "the same grid with the victim at the far end of a connection opened by connect()" },
-            Stratum { name: "rejoin_same_identity", quick: 24_000, thorough: 400_000, exhaustive: (false, false), run: rejoin_same_identity, what: "orderly departure and rejoin under the same announced identity at four timings" },
+            Stratum { name: "rejoin_same_identity", quick: 24_000, thorough: 400_000, exhaustive: (false, false), run: rejoin_same_identity, what: "departure (close / cut inside a message / reset) and rejoin under the same announced identity at four timings" },
             Stratum { name: "churn", quick: 18_000, thorough: 300_000, exhaustive: (false, false), run: churn, what: "repeated connect/disconnect cycles, retained connections" },
         ],
     }
